@@ -15,16 +15,60 @@ fn lead_of(line: &str) -> (&str, &str) {
     line.split_at(n)
 }
 
+#[derive(Clone, Copy, PartialEq, Debug)]
+enum LineKind {
+    Normal,
+    /// interior or closing line of the `.1`-th multi-line literal, whose opening quotes are on line `.0`
+    Literal(usize, usize),
+    /// interior line of another line-spanning token (block comment): kept as in the input
+    Verbatim,
+}
+
+/// classify the physical lines of an output by the line-spanning reference tokens in it
+fn line_kinds(out: &str) -> Vec<LineKind> {
+    let lines = oracle::split_breaks(out);
+    // byte offset at which each line starts
+    let mut starts = Vec::with_capacity(lines.len());
+    let mut pos = 0;
+    for l in &lines {
+        starts.push(pos);
+        pos += l.len();
+        let rest = &out[pos..];
+        if rest.starts_with("\r\n") {
+            pos += 2;
+        } else if rest.starts_with('\n') || rest.starts_with('\r') {
+            pos += 1;
+        }
+    }
+    let mut kinds = vec![LineKind::Normal; lines.len()];
+    let mut nth_literal = 0;
+    for t in refscan::scan(out) {
+        if t.kind == RK::MlStr {
+            nth_literal += 1;
+        }
+        let txt = t.text(out);
+        if !(txt.contains('\n') || txt.contains('\r')) {
+            continue;
+        }
+        let first = starts.partition_point(|&s| s <= t.start) - 1;
+        let last = starts.partition_point(|&s| s < t.end) - 1;
+        for k in kinds.iter_mut().take(last + 1).skip(first + 1) {
+            *k = if t.kind == RK::MlStr { LineKind::Literal(first, nth_literal - 1) } else { LineKind::Verbatim };
+        }
+    }
+    kinds
+}
+
 fn skip_input(input: &str, fmt_mlstr: bool) -> bool {
     // inputs with verbatim line-spanning material: their interior lines are not indentation
     let toks = refscan::scan(input);
     let mask = oracle::verbatim_mask(input, &toks);
     toks.iter().enumerate().any(|(i, t)| {
         let txt = t.text(input);
-        // any line-spanning token: interior lines are token text, not indentation (re-indented
-        // literals are covered by C12, which checks them against their opening line per configuration)
-        let _ = fmt_mlstr;
-        mask[i] || t.in_asm || t.unterminated || txt.contains('\n') || txt.contains('\r') || t.kind == RK::UntermStr
+        // verbatim regions, asm and broken tokens are skipped; well-formed line-spanning tokens
+        // (comments, multi-line literals) are handled line by line below
+        let _ = (fmt_mlstr, txt);
+        mask[i] || t.in_asm || t.unterminated || t.kind == RK::UntermStr
     })
 }
 
@@ -45,7 +89,11 @@ impl Prop for C10 {
         let mut out = CaseOut::default();
         let mut rng = Rng::derive(ctx.seed, "C10", idx);
         for k in 0..8 {
-            let w = common::well_formed(ctx, &mut rng, 25);
+            let mut w = common::well_formed(ctx, &mut rng, 25);
+            if rng.chance(1, 5) {
+                // literals whose existing indentation uses either character, at various lengths
+                w = common::WellFormed { text: common::mls_carrier(&mut rng), name: "mls-carrier".into(), prog: None, layout: None, seed_width: None };
+            }
             let fms = !rng.chance(1, 6);
             if skip_input(&w.text, fms) {
                 out.count("skipped_verbatim_multiline");
@@ -83,7 +131,45 @@ impl Prop for C10 {
             }
             let mut has_both = false;
             let mut reported = false;
+            let input_literals_conforming: Vec<bool> = refscan::scan(&w.text).iter().filter(|t| t.kind == RK::MlStr).map(|t| super::wf::mlstr_value(t.text(&w.text)).is_some()).collect();
+            let kinds = line_kinds(&o_tab);
+            if kinds != line_kinds(&o_sp) {
+                out.violate("C10", class("layout-changed"), format!("{} [{}] line-spanning tokens sit on different lines under tabs and spaces", w.name, base.short()), &w.text, Some(&base));
+                continue;
+            }
             for i in 0..ls.len() {
+                match kinds[i] {
+                    LineKind::Normal => {}
+                    LineKind::Verbatim => {
+                        if ls[i] != lt[i] {
+                            out.violate("C10", class("content-changed"), format!("{} [{}] line {}: interior of a line-spanning comment differs between tabs and spaces", w.name, base.short(), i + 1), &w.text, Some(&base));
+                            reported = true;
+                        }
+                        continue;
+                    }
+                    LineKind::Literal(open, nth) => {
+                        // interior and closing lines of a literal: the opening line's indentation, rendered
+                        // in the configuration's unit, followed by text that must be identical
+                        out.count("literal_lines_compared");
+                        let (open_sp, _) = lead_of(ls[open]);
+                        let (open_tb, _) = lead_of(lt[open]);
+                        // literals that violate the indentation rule (judged on the input) are kept verbatim
+                        let conforming = input_literals_conforming.get(nth).copied().unwrap_or(false);
+                        let ok = if !fms || !conforming || ls[i].is_empty() || lt[i].is_empty() {
+                            ls[i] == lt[i]
+                        } else {
+                            match (ls[i].strip_prefix(open_sp), lt[i].strip_prefix(open_tb)) {
+                                (Some(a), Some(b)) => a == b,
+                                _ => false,
+                            }
+                        };
+                        if !ok && !reported {
+                            out.violate("C10", class("literal-indentation-unit"), format!("{} [{}] line {}: interior line of a multi-line literal is {:?} under tabs and {:?} under spaces; the opening quotes' line is indented {:?} / {:?}", w.name, base.short(), i + 1, short(lt[i], 60), short(ls[i], 60), open_tb, open_sp), &w.text, Some(&base));
+                            reported = true;
+                        }
+                        continue;
+                    }
+                }
                 let (isp, rsp) = lead_of(ls[i]);
                 let (itb, rtb) = lead_of(lt[i]);
                 let (i11, r11) = lead_of(a11[i]);
